@@ -743,3 +743,476 @@ def monitor(c: Case) -> list[str]:
         elif (sync_only or not c.impl_vals) and c.nck == 0:
             hits.append(f"{FNAME[c.fc]}: traversal ({'synchronous sources' if sync_only else 'no element yielded'}) passed no checkpoint")
     return hits
+
+
+# ----------------------------------------------------------------------------------------------
+# tee: consumers are puppet tasks on the schedule-controlled loop; the harness picks every interleaving
+# ----------------------------------------------------------------------------------------------
+class CountingSyncSource:
+    def __init__(self, l):
+        self.l, self.i, self.polls = list(l), 0, 0
+
+    def __iter__(self):
+        return self
+
+    def __next__(self):
+        self.polls += 1
+        if self.i >= len(self.l):
+            raise StopIteration
+        self.i += 1
+        return self.l[self.i - 1]
+
+
+class CountingAsyncSource:
+    def __init__(self, l, suspend):
+        self.l, self.i, self.polls, self.suspend = list(l), 0, 0, suspend
+
+    def __aiter__(self):
+        return self
+
+    async def __anext__(self):
+        self.polls += 1
+        i = self.i
+        if i < len(self.l):
+            self.i += 1
+        if self.suspend:
+            await asyncio.sleep(0)
+        if i >= len(self.l):
+            raise StopAsyncIteration
+        return self.l[i]
+
+
+class TeeRun:
+    def __init__(self, mode: int, src: tuple, n: int):
+        self.mode, self.src, self.n = mode, tuple(src), n
+        self.ops: list[int] = []
+        self.outs: list[int] = []
+        self.mon: list[str] = []
+        self.seen = {c: [] for c in range(n)}
+        self.stopped = {c: False for c in range(n)}
+        self.flags: set = set()
+
+    def __enter__(self):
+        import anyio.itertools as ait
+        from puppet import World
+
+        self.world = World()
+        self._sess = self.world.session()
+        self._sess.__enter__()
+        self.source = CountingSyncSource(self.src) if self.mode == 0 else CountingAsyncSource(self.src, self.mode == 2)
+        self.its = ait.tee(self.source, self.n)
+        for c in range(self.n):
+            self.world.spawn(c + 1)
+        self.cons_of = {id(p.task): t - 1 for t, p in self.world.puppets.items()}
+        return self
+
+    def __exit__(self, *a):
+        self.world.close()
+        self._sess.__exit__(*a)
+
+    def lock_obs(self):
+        st = self.its[0]._state.lock.statistics()
+        owner = 0 if st.owner is None else self.cons_of.get(st.owner.id, 98) + 1
+        return [owner, st.tasks_waiting]
+
+    def enabled(self):
+        en = []
+        for t, p in self.world.puppets.items():
+            if p.at_decision:
+                en.append((0, t - 1))
+            elif self.world.runnable(p):
+                en.append((1, t - 1))
+        return en
+
+    def do(self, code: int, c: int):
+        LOG.clear()
+        if code == 0:
+            it = self.its[c]
+
+            async def cmd(p, it=it):
+                try:
+                    return ("v", await it.__anext__())
+                except StopAsyncIteration:
+                    return ("stop", None)
+
+            out = self.world.act(c + 1, cmd)
+        else:
+            out = self.world.resume(c + 1)
+        ev = [e for e in LOG if isinstance(e, int)]
+        if out is None:
+            res = [9, 0]
+        elif out[0] == "blocked":
+            res = [1, 0]
+        elif out[0] == "ok" and out[1][0] == "v":
+            res = [0, out[1][1]]
+            self.on_value(c, out[1][1])
+        elif out[0] == "ok":
+            res = [2, 0]
+            self.on_stop(c)
+        else:
+            res = [8, 0]
+            self.mon.append(f"consumer {c}: unexpected exception {out[1]!r}")
+        lo = self.lock_obs()
+        if lo[1] > 0:
+            self.flags.add("lock_contended")
+        if code == 1 and res[0] != 1 and lo[0] != 0:
+            self.flags.add("handoff")
+        if self.source.polls > len(self.src) + 1:
+            self.mon.append(f"source advanced {self.source.polls} times for {len(self.src)} elements")
+        self.ops += [code, c]
+        self.outs += res + lo + [self.source.polls, len(ev)] + ev
+
+    def on_value(self, c, v):
+        i = len(self.seen[c])
+        if self.stopped[c]:
+            self.mon.append(f"consumer {c} received {v} after StopAsyncIteration")
+        if i >= len(self.src) or self.src[i] != v:
+            self.mon.append(f"consumer {c} received {v} as element #{i} of source {list(self.src)} (seen so far {self.seen[c]})")
+        self.seen[c].append(v)
+
+    def on_stop(self, c):
+        self.stopped[c] = True
+        if tuple(self.seen[c]) != self.src:
+            self.mon.append(f"consumer {c} stopped after {self.seen[c]} of source {list(self.src)}")
+
+    def quiesce(self):
+        """every consumer finishes its call and then drains its iterator: all must have seen the whole source"""
+        for _ in range(40 * (len(self.src) + 2) * max(self.n, 1)):
+            en = self.enabled()
+            res = [(k, c) for (k, c) in en if k == 1]
+            if res:
+                self.do(*res[0])
+                continue
+            todo = [(k, c) for (k, c) in en if not self.stopped[c]]
+            if not todo:
+                break
+            self.do(*todo[0])
+        blocked = [t - 1 for t, p in self.world.puppets.items() if not p.at_decision]
+        if blocked:
+            self.mon.append(f"consumers {blocked} never returned (deadlock)")
+        for c in range(self.n):
+            if not blocked and tuple(self.seen[c]) != self.src:
+                self.mon.append(f"consumer {c} saw {self.seen[c]} of source {list(self.src)}")
+        if self.n and self.source.polls != len(self.src) + 1 and not blocked:
+            self.mon.append(f"source advanced {self.source.polls} times, expected {len(self.src) + 1}")
+        if self.world.loop.errors:
+            self.mon.append(f"loop errors: {self.world.loop.errors[:2]}")
+
+    def case(self):
+        return [2, self.mode, self.n, len(self.src), *self.src, *self.ops]
+
+    def describe(self):
+        return {"function": "tee", "mode": ["sync", "async", "async-suspending"][self.mode], "source": list(self.src),
+                "consumers": self.n, "ops": [("next" if self.ops[i] == 0 else "resume", self.ops[i + 1])
+                                             for i in range(0, len(self.ops), 2)], "encoded": self.case()}
+
+
+def tee_script(mode, src, n, flat_ops, quiesce=True):
+    with TeeRun(mode, src, n) as r:
+        for i in range(0, len(flat_ops), 2):
+            r.do(flat_ops[i], flat_ops[i + 1])
+        r.enabled_at_end = r.enabled()
+        if quiesce:
+            r.quiesce()
+        return r
+
+
+def tee_exhaustive(mode, src, n, depth):
+    """all interleavings (sequences of enabled next/resume segments) up to `depth`, each then drained"""
+    results = []
+
+    def rec(prefix):
+        r = tee_script(mode, src, n, prefix)
+        if len(prefix) // 2 >= depth or not r.enabled_at_end:
+            results.append(r)
+            return
+        used = set(prefix[1::2])
+        for (k, c) in r.enabled_at_end:
+            if c not in used and c != min(set(range(n)) - used, default=c):
+                continue    # symmetry: a fresh consumer is the smallest unused one
+            rec(prefix + [k, c])
+
+    rec([])
+    return results
+
+
+def tee_random(rng: random.Random, nsteps: int):
+    mode = rng.choice([0, 0, 1, 2])
+    src = tuple(rng.randint(0, 9) for _ in range(rng.randint(0, 6)))
+    n = rng.choice([1, 2, 3, 3, 4, 5])
+    with TeeRun(mode, src, n) as r:
+        for _ in range(nsteps):
+            en = r.enabled()
+            if not en:
+                break
+            k, c = rng.choice(en)
+            r.do(k, c)
+        r.quiesce()
+        return r
+
+
+def run_tee(tier: str, rng: random.Random):
+    REAL[0] = True
+    install_wrappers()
+    try:
+        runs = []
+        if tier == "quick":
+            plan = [(m, s, n, d) for m in (0, 1, 2) for s, n, d in
+                    (((), 2, 6), ((1,), 2, 7), ((1, 2), 2, 7), ((), 3, 5), ((1,), 3, 6), ((1, 2), 3, 5))]
+            nrand = 150
+        else:
+            plan = [(m, s, n, d) for m in (0, 1, 2) for s, n, d in
+                    (((), 2, 8), ((1,), 2, 10), ((1, 2), 2, 10), ((), 3, 7), ((1,), 3, 8), ((1, 2), 3, 8),
+                     ((1, 2, 0), 3, 7), ((1,), 1, 8))]
+            nrand = 3000
+        for (m, s, n, d) in plan:
+            runs += tee_exhaustive(m, s, n, d)
+        nex = len(runs)
+        for _ in range(nrand):
+            runs.append(tee_random(rng, rng.choice([4, 8, 14, 24])))
+        return runs, nex, plan
+    finally:
+        remove_wrappers()
+        REAL[0] = False
+
+
+# ----------------------------------------------------------------------------------------------
+# the check
+# ----------------------------------------------------------------------------------------------
+def _tuplify(x):
+    if isinstance(x, list):
+        return tuple(_tuplify(y) for y in x)
+    return x
+
+
+def corpus_cases():
+    cases, tees = [], []
+    d = core.VERIF / "corpus" / "C19"
+    if d.exists():
+        for f in sorted(d.glob("*.json")):
+            c = json.loads(f.read_text())
+            if "tee" in c:
+                tees.append(c["tee"])
+            else:
+                cases.append(Case(c["fc"], _tuplify(c["args"]), c.get("variant", 0), origin="corpus"))
+    return cases, tees
+
+
+def interesting(c: Case) -> set:
+    f = set()
+    if c.impl_err is not None:
+        f.add("error_path")
+    if c.impl_err is None and not c.impl_vals:
+        f.add("empty_traversal")
+    srcs = c.sources()
+    if srcs and any(k == 1 for k, _ in srcs):
+        f.add("async_source")
+    if srcs and any(k == 0 for k, _ in srcs):
+        f.add("sync_source")
+    if c.fc == 12 and len(c.a[0]) == 3 and c.a[0][2] not in (None, 1) and c.impl_vals:
+        f.add("islice_step_gt1")
+    if c.fc == 2 and c.impl_vals and len(c.impl_vals[-1]) != c.a[0]:
+        f.add("batched_short_tail")
+    if c.fc == 11 and len(c.impl_vals) > 1:
+        f.add("groupby_key_change")
+    if c.fc == 19 and len({len(s[1]) for s in c.a[1]}) > 1:
+        f.add("zip_uneven")
+    if c.fc == 8 and c.a[0] > len(c.a[1][1]) > 0:
+        f.add("cycle_wraps")
+    return f
+
+
+def check(tier: str) -> int:
+    rep = core.Report("C19", tier)
+    rep.assumptions = core.TRUSTED_BASE_COMMON + [
+        "models pure/Itertools.v hand-written from src/anyio/itertools.py (all 629 lines) and functools.py:344-400; "
+        "callbacks are non-checkpointing `async def` functions from a closed family mirrored in harness/c19.py "
+        "(theorems quantify over arbitrary Gallina callbacks); elements are integers",
+        "the four delegating functions (combinations, combinations_with_replacement, permutations, product) are "
+        "modelled as pool collection + a Coq oracle; the oracle is checked against the real itertools by tie X2, not proved "
+        "against an independent definition",
+        "islice: sys.maxsize bound of normalize_index not modelled (arguments stay far below it)",
+        "reduce: each awaited callback invocation is a Call event; by AnyIO's convention the callback is itself obliged "
+        "to checkpoint, so reduce delegates its checkpoint to it (documented scope, C08)",
+        "itertools.batched(strict=) exists from Python 3.13: on older interpreters tie X2 applies the documented "
+        "behaviour on top of the real non-strict batched" + ("" if not BATCHED_STRICT_NATIVE else " (native here)"),
+        "tee LTS: consumers run in separate tasks, no cancellation of consumers; lock modelled as owner + FIFO queue "
+        "(its own guarantees are C09)",
+    ]
+    proofs_ok = core.proof_stage(rep, "props/C19.v")
+    ok8, log8 = core.coq_make(["props/C08_itertools.vo"])
+    gate8 = core.coq_gate(["props/C08_itertools.v"])
+    rep.coverage["c08_itertools"] = {"built": ok8, "gate": gate8,
+                                     "print_assumptions": core.print_assumptions("props/C08_itertools.v") if ok8 else []}
+    if not ok8 or gate8:
+        proofs_ok = False
+        rep.coverage.setdefault("proof_failure", {"where": "props/C08_itertools.v", "log_tail": log8[-1500:]})
+    exe = core.build_driver("itertools", "Itertools")
+
+    rng = random.Random(core.seed())
+    corpus, corpus_tees = corpus_cases()
+    ex = exhaustive_cases(tier)
+    rnd = random_cases(rng, 3000 if tier == "quick" else 40000)
+    rnd_real = random_cases(rng, 1500 if tier == "quick" else 10000)
+    for c in rnd_real:
+        c.origin = "random-real-checkpoints"
+    cases = corpus + ex + rnd
+    run_cases(cases, real=False)
+    run_cases(rnd_real, real=True)          # the wrappers call through to the real checkpoint functions
+    cases += rnd_real
+
+    # ---- X1 / X2 through the extracted model ----
+    x1_bad, x2_bad = [], []
+    CH = 100000
+    for i in range(0, len(cases), CH):
+        chunk = cases[i:i + CH]
+        m_out = core.run_driver(exe, [[0] + c.enc for c in chunk])
+        s_out = core.run_driver(exe, [[1] + c.enc for c in chunk if c.fc != 22])
+        for c, o in zip(chunk, m_out):
+            if c.impl != o:
+                x1_bad.append((c, o))
+        for c, o in zip([c for c in chunk if c.fc != 22], s_out):
+            if flat_outcome(*c.std) != o:
+                x2_bad.append((c, o))
+
+    # ---- monitors ----
+    hits = []
+    for c in cases:
+        for h in monitor(c):
+            hits.append((c, h))
+
+    # ---- tee ----
+    tee_runs, tee_nex, tee_plan = run_tee(tier, rng)
+    if corpus_tees:
+        REAL[0] = True
+        install_wrappers()
+        try:
+            tee_runs = [tee_script(t["mode"], tuple(t["src"]), t["n"], t["ops"]) for t in corpus_tees] + tee_runs
+        finally:
+            remove_wrappers()
+            REAL[0] = False
+    tee_model = core.run_driver(exe, [r.case() for r in tee_runs])
+    tee_bad = [(r, o) for r, o in zip(tee_runs, tee_model) if r.outs != o]
+    tee_rejected = 0
+    for r, o in zip(tee_runs, tee_model):
+        i = 0
+        while i + 5 < len(o):
+            if o[i] == 9:
+                tee_rejected += 1
+            i += 6 + o[i + 5]
+    tee_hits = [(r, msg) for r in tee_runs for msg in r.mon]
+
+    # ---- kernel-checked sample ----
+    sample_n = 150 if tier == "quick" else 1500
+    idx = list(range(len(cases)))
+    rng.shuffle(idx)
+    idx = idx[:sample_n]
+    s_in = [[0] + cases[i].enc for i in idx] + [[1] + cases[i].enc for i in idx if cases[i].fc != 22]
+    s_ex = [cases[i].impl for i in idx] + [flat_outcome(*cases[i].std) for i in idx if cases[i].fc != 22]
+    tidx = list(range(len(tee_runs)))
+    rng.shuffle(tidx)
+    tidx = tidx[:sample_n // 3]
+    s_in += [tee_runs[i].case() for i in tidx]
+    s_ex += [tee_runs[i].outs for i in tidx]
+    vm_ok, vm_log = core.coq_eval_cases("c19", "Itertools", s_in, s_ex)
+
+    # ---- decide ----
+    def smallest_per_function(pairs, key=lambda p: len(p[0].enc)):
+        best = {}
+        for p in pairs:
+            k = p[0].fc
+            if k not in best or key(p) < key(best[k]):
+                best[k] = p
+        return list(best.values())
+
+    for c, h in smallest_per_function(hits)[:8]:
+        rep.violation(h, {"kind": "monitor", "case": c.describe(), "anyio": {"values": c.impl_vals, "error": c.impl_err,
+                                                                             "trace": c.impl},
+                          "stdlib": c.std, "origin": c.origin})
+    if tee_hits:
+        r, msg = min(tee_hits, key=lambda p: len(p[0].ops))
+        rep.violation(msg, {"kind": "monitor", "case": r.describe(), "observations": r.outs})
+    tie_broken = []
+    if not proofs_ok:
+        tie_broken.append("proof obligation: " + str(rep.coverage.get("proof_failure", {}).get("where")))
+    if x1_bad:
+        tie_broken.append("correspondence X1 Itertools.run_model_case vs anyio.itertools/functools.reduce: "
+                          + ", ".join(sorted({FNAME[c.fc] for c, _ in x1_bad})))
+    if x2_bad:
+        tie_broken.append("correspondence X2 Itertools.run_spec_case vs Python itertools/functools: "
+                          + ", ".join(sorted({FNAME[c.fc] for c, _ in x2_bad})))
+    if tee_bad:
+        tie_broken.append("correspondence X1 Itertools.run_tee_case vs anyio.itertools.tee")
+    if tee_rejected:
+        tie_broken.append(f"tee model rejected {tee_rejected} segments the implementation performed")
+    if not vm_ok and not (x1_bad or x2_bad or tee_bad):
+        tie_broken.append("vm_compute sample disagrees with the extracted model")
+    if tie_broken and not hits and not tee_hits:
+        d = None
+        if x1_bad:
+            c, o = min(x1_bad, key=lambda p: len(p[0].enc))
+            d = {"tie": "X1", "case": c.describe(), "impl_trace": c.impl, "model_trace": o}
+        elif x2_bad:
+            c, o = min(x2_bad, key=lambda p: len(p[0].enc))
+            d = {"tie": "X2", "case": c.describe(), "stdlib": flat_outcome(*c.std), "spec": o}
+        elif tee_bad:
+            r, o = min(tee_bad, key=lambda p: len(p[0].ops))
+            d = {"tie": "X1-tee", "case": r.describe(), "impl": r.outs, "model": o}
+        rep.violation("; ".join(tie_broken), {"kind": "tie", "broken": tie_broken, "case": d}, no_input=True)
+
+    # ---- evidence ----
+    flags: dict = {}
+    nontrivial = set()
+    per_fun: dict = {}
+    for c in cases:
+        fl = interesting(c)
+        for f in fl:
+            flags[f] = flags.get(f, 0) + 1
+        if fl - {"sync_source", "async_source"} or len(c.impl_vals) > 1:
+            nontrivial.add(tuple(c.enc))
+        per_fun[FNAME[c.fc]] = per_fun.get(FNAME[c.fc], 0) + 1
+    tflags: dict = {}
+    for r in tee_runs:
+        for f in r.flags:
+            tflags[f] = tflags.get(f, 0) + 1
+    b = dict(BOUNDS[tier])
+    rep.coverage.update({
+        "trusted_base": rep.assumptions,
+        "evaluations": 2 * len(cases) + len(tee_runs),
+        "programs": len(cases) + len(tee_runs),
+        "traces_validated_against_impl": len(cases) - len(x1_bad) + len(tee_runs) - len(tee_bad),
+        "spec_outcomes_validated_against_stdlib": len([c for c in cases if c.fc != 22]) - len(x2_bad),
+        "disagreements_checked": len(x1_bad) + len(x2_bad) + len(tee_bad),
+        "distinct_nontrivial": len(nontrivial) + len({tuple(r.case()) for r in tee_runs if r.flags}),
+        "rule": "per function: every argument combination inside the recorded bounds (alphabet {0,1,2}, every list up to "
+                "the length bound, every source given once as a synchronous and once as an asynchronous iterable, "
+                "parameters -2..7 and None) + random longer inputs (values -5..9, length <= 30); each case runs the "
+                "real AnyIO function (event trace via wrapped checkpoint names), the real stdlib function, the "
+                "extracted model and the extracted spec; tee: every sequence of enabled consumer segments "
+                "(next / resume) up to the recorded depth on the schedule-controlled loop, then drained; non-trivial = "
+                "error path, empty traversal, >1 result, or (tee) lock contention / hand-off",
+        "exhaustive": True,
+        "exhaustive_bounds": {k: (list(v) if isinstance(v, tuple) else v) for k, v in b.items()},
+        "exhaustive_small_scope_cases": len(ex),
+        "tee_exhaustive_plan": [{"mode": m, "source": list(s), "consumers": n, "depth": d} for (m, s, n, d) in tee_plan],
+        "tee_exhaustive_interleavings": tee_nex,
+        "tee_runs": len(tee_runs),
+        "random_cases": len(rnd) + len(rnd_real),
+        "corpus_cases": len(corpus) + len(corpus_tees),
+        "per_function": per_fun,
+        "reached": {**flags, **{"tee_" + k: v for k, v in tflags.items()}},
+        "vm_compute_sample": len(s_in),
+        "vm_compute_ok": vm_ok,
+        "model_rejected_ops": tee_rejected,
+        "monitor_hits": len(hits) + len(tee_hits),
+        "samples": [cases[i].describe() | {"impl_trace": cases[i].impl[:40]} for i in idx[:2]]
+                   + [tee_runs[i].describe() for i in tidx[:1]],
+    })
+    for need in ("error_path", "empty_traversal", "async_source", "sync_source", "islice_step_gt1",
+                 "batched_short_tail", "groupby_key_change", "zip_uneven", "cycle_wraps"):
+        if not flags.get(need):
+            rep.notes.append(f"generator self-check: predicate {need} never reached")
+    for need in ("lock_contended", "handoff"):
+        if not tflags.get(need):
+            rep.notes.append(f"generator self-check: tee predicate {need} never reached")
+    return rep.finish()
